@@ -3,7 +3,7 @@
 # (1) applies, (2) builds with and without the hook cfg, (3) leaves the pinned suite passing,
 # (4) makes its demonstration fail, while (5) the demonstration passes on the unchanged source.
 set -u
-W=/tmp/confirm-wt
+W=${CONFIRM_WT:-/tmp/confirm-wt}
 if [ ! -d $W ]; then git -C /repo worktree add --detach $W HEAD >/dev/null 2>&1 || exit 2; fi
 ARGS=(); for a in "$@"; do ARGS+=("$(cd "$a" && pwd)"); done
 for D in "${ARGS[@]}"; do
